@@ -33,6 +33,17 @@ class _Break(Exception):
     pass
 
 
+class _PyRaise(Exception):
+    """an exception of the interpreted program (only the class name is tracked)"""
+
+    def __init__(self, name):
+        self.name = name
+
+
+class _Continue(Exception):
+    pass
+
+
 class _Stop(Exception):
     def __init__(self, value):
         self.value = value
@@ -41,6 +52,17 @@ class _Stop(Exception):
 _BIN = {ast.Add: operator.add, ast.Sub: operator.sub, ast.Mult: operator.mul, ast.Div: operator.truediv, ast.FloorDiv: operator.floordiv, ast.Mod: operator.mod, ast.Pow: operator.pow, ast.LShift: operator.lshift, ast.RShift: operator.rshift, ast.BitAnd: operator.and_, ast.BitOr: operator.or_, ast.BitXor: operator.xor}
 _CMP = {ast.Eq: operator.eq, ast.NotEq: operator.ne, ast.Lt: operator.lt, ast.LtE: operator.le, ast.Gt: operator.gt, ast.GtE: operator.ge, ast.Is: operator.is_, ast.IsNot: operator.is_not}
 _FUN = {"min": min, "max": max, "round": round, "int": int, "float": float, "abs": abs, "len": len, "bool": bool}
+
+
+class FakeObj:
+    """A stand-in value with named attributes (and a class name for isinstance tests)."""
+
+    def __init__(self, cls: str = "", **attrs):
+        self.__dict__["_cls"] = cls
+        self.__dict__.update(attrs)
+
+    def __repr__(self):
+        return f"<{self._cls} {', '.join(f'{k}={v!r}' for k, v in self.__dict__.items() if k != '_cls')}>"
 
 
 class Mini:
@@ -69,6 +91,14 @@ class Mini:
                 return list(v) if isinstance(v, list) else tuple(v)
             raise Unsupported(f"name {e.id} is not a plain constant")
         if isinstance(e, ast.Attribute):
+            try:
+                base = self.ev(e.value, env)
+            except Unsupported:
+                base = None
+            if isinstance(base, FakeObj):
+                if e.attr in base.__dict__:
+                    return base.__dict__[e.attr]
+                raise Unsupported(f"{t}: the stand-in object has no attribute {e.attr}")
             try:
                 v = self.repo.fold(self.module, e)
             except NotConst:
@@ -122,8 +152,54 @@ class Mini:
                 else:
                     items.append(self.ev(x, env))
             return tuple(items) if isinstance(e, ast.Tuple) else items
+        if isinstance(e, (ast.ListComp, ast.GeneratorExp, ast.SetComp)) and len(e.generators) == 1 and not e.generators[0].is_async:
+            g = e.generators[0]
+            out = []
+            for item in list(self.ev(g.iter, env)):
+                env2 = dict(env)
+                self._bind(g.target, item, env2)
+                if all(self.ev(c, env2) for c in g.ifs):
+                    out.append(self.ev(e.elt, env2))
+            return out
+        if isinstance(e, ast.Subscript) and not isinstance(e.slice, ast.Slice):
+            base, idx = self.ev(e.value, env), self.ev(e.slice, env)
+            try:
+                return base[idx]
+            except Exception as ex:
+                raise Unsupported(f"subscript {t}: {ex}")
         if isinstance(e, ast.Call):
             d = dotted(e.func) or ""
+            if d == "isinstance" and len(e.args) == 2:
+                v = self.ev(e.args[0], env)
+                ci = self.repo.resolve_class(self.module, e.args[1]) if dotted(e.args[1]) else None
+                if isinstance(v, FakeObj) and ci is not None:
+                    return v._cls == ci.name
+                raise Unsupported(f"isinstance on {t}")
+            if d.split(".")[-1] == "deque" and len(e.args) <= 1 and not e.keywords:
+                return list(self.ev(e.args[0], env)) if e.args else []
+            if d in ("range", "reversed", "list", "tuple", "enumerate", "sorted") and not e.keywords:
+                args = [self.ev(a, env) for a in e.args]
+                try:
+                    r = {"range": range, "reversed": reversed, "list": list, "tuple": tuple, "enumerate": enumerate, "sorted": sorted}[d](*args)
+                except Exception as ex:
+                    raise Unsupported(f"{d}(): {ex}")
+                return list(r) if d != "tuple" else tuple(r)
+            if isinstance(e.func, ast.Attribute) and e.func.attr in ("popleft", "pop", "append", "appendleft", "copy", "clear", "index") and not e.keywords:
+                try:
+                    obj = self.ev(e.func.value, env)
+                except Unsupported:
+                    obj = None
+                if isinstance(obj, list):
+                    args = [self.ev(a, env) for a in e.args]
+                    try:
+                        if e.func.attr == "popleft":
+                            return obj.pop(0)
+                        if e.func.attr == "appendleft":
+                            obj.insert(0, args[0])
+                            return None
+                        return getattr(obj, e.func.attr)(*args)
+                    except IndexError as ex:
+                        raise _PyRaise("IndexError")
             if d in _FUN and not e.keywords:
                 return _FUN[d](*[self.ev(a, env) for a in e.args])
             if d in _FUN and d == "round" and all(k.arg == "ndigits" for k in e.keywords):
@@ -173,10 +249,25 @@ class Mini:
                     raise _Stop(self.ev(e, env))
             if isinstance(s, ast.Expr):
                 c = s.value
-                # list building on a local: xs.append(v) / xs.extend(vs) / xs += ...
-                if isinstance(c, ast.Call) and isinstance(c.func, ast.Attribute) and isinstance(c.func.value, ast.Name) and isinstance(env.get(c.func.value.id), list) and c.func.attr in ("append", "extend") and len(c.args) == 1 and not c.keywords:
-                    v = self.ev(c.args[0], env)
-                    env[c.func.value.id] = env[c.func.value.id] + ([v] if c.func.attr == "append" else list(v))
+                # mutations of list-like state (locals or atoms): append / extend / popleft / ... ; other calls (logging) are skipped
+                if isinstance(c, ast.Call) and isinstance(c.func, ast.Attribute) and c.func.attr in ("append", "extend", "appendleft", "popleft", "pop", "clear", "remove", "insert") and not c.keywords:
+                    try:
+                        obj = self.ev(c.func.value, env)
+                    except Unsupported:
+                        obj = None
+                    if isinstance(obj, list):
+                        args = [self.ev(a_, env) for a_ in c.args]
+                        try:
+                            if c.func.attr == "appendleft":
+                                obj.insert(0, args[0])
+                            elif c.func.attr == "popleft":
+                                obj.pop(0)
+                            else:
+                                getattr(obj, c.func.attr)(*args)
+                        except IndexError:
+                            raise _PyRaise("IndexError")
+                        except ValueError:
+                            raise _PyRaise("ValueError")
                 continue  # logging etc. - no effect on the values
             if isinstance(s, ast.Pass):
                 continue
@@ -185,7 +276,10 @@ class Mini:
                     continue
                 v = self.ev(s.value, env)
                 for t in (s.targets if isinstance(s, ast.Assign) else [s.target]):
-                    self._bind(t, v, env)
+                    if isinstance(t, ast.Attribute) and norm_text(t) in self.atoms:
+                        self.atoms[norm_text(t)] = v  # state named as an atom is rebound
+                    else:
+                        self._bind(t, v, env)
                 continue
             if isinstance(s, ast.AugAssign) and isinstance(s.target, ast.Name) and type(s.op) in _BIN:
                 cur = env[s.target.id] if s.target.id in env else self.ev(s.target, env)
@@ -195,24 +289,66 @@ class Mini:
             if isinstance(s, ast.If):
                 self.run(s.body if self.ev(s.test, env) else s.orelse, env, stop)
                 continue
-            if isinstance(s, ast.While) and isinstance(s.test, ast.Constant) and s.test.value is True and s.body and isinstance(s.body[-1], ast.Break):
+            if isinstance(s, (ast.For,)) and not s.orelse:
+                for item in list(self.ev(s.iter, env)):
+                    self._bind(s.target, item if not isinstance(item, list) else tuple(item) if isinstance(s.target, ast.Tuple) else item, env)
+                    try:
+                        self.run(s.body, env, stop)
+                    except _Break:
+                        break
+                    except _Continue:
+                        continue
+                continue
+            if isinstance(s, ast.While) and not s.orelse:
+                n = 0
+                while self.ev(s.test, env):
+                    n += 1
+                    if n > 64:
+                        raise Unsupported("loop does not terminate within 64 iterations")
+                    try:
+                        self.run(s.body, env, stop)
+                    except _Break:
+                        break
+                    except _Continue:
+                        continue
+                continue
+            if isinstance(s, ast.Delete) and len(s.targets) == 1 and isinstance(s.targets[0], ast.Subscript):
+                tgt = s.targets[0]
+                base, idx = self.ev(tgt.value, env), self.ev(tgt.slice, env)
+                try:
+                    del base[idx]
+                except Exception as ex:
+                    raise Unsupported(f"del: {ex}")
+                continue
+            if isinstance(s, ast.Try) and not s.finalbody:
                 try:
                     self.run(s.body, env, stop)
-                except _Break:
-                    pass
+                except _PyRaise as ex:
+                    for h in s.handlers:
+                        names = [dotted(x) for x in (h.type.elts if isinstance(h.type, ast.Tuple) else [h.type])] if h.type is not None else ["*"]
+                        if "*" in names or ex.name in [(n or "").split(".")[-1] for n in names] or "Exception" in names:
+                            self.run(h.body, env, stop)
+                            break
+                    else:
+                        raise
+                else:
+                    self.run(s.orelse, env, stop)
                 continue
+            if isinstance(s, ast.Continue):
+                raise _Continue()
             if isinstance(s, ast.Break):
                 raise _Break()
             if isinstance(s, ast.Return):
                 raise _Return(self.ev(s.value, env) if s.value is not None else None)
             if isinstance(s, ast.Raise):
-                raise _Return(("raise", norm_text(s.exc)[:60] if s.exc else ""))
+                name = (dotted(s.exc.func if isinstance(s.exc, ast.Call) else s.exc) or "?").split(".")[-1] if s.exc is not None else "?"
+                raise _PyRaise(name)
             raise Unsupported(f"statement {type(s).__name__}: {norm_text(s)[:60]}")
 
     def _bind(self, t, v, env):
         if isinstance(t, ast.Name):
             env[t.id] = v
-        elif isinstance(t, (ast.Tuple, ast.List)) and isinstance(v, tuple) and len(v) == len(t.elts):
+        elif isinstance(t, (ast.Tuple, ast.List)) and isinstance(v, (tuple, list)) and len(v) == len(t.elts):
             for tt, vv in zip(t.elts, v):
                 self._bind(tt, vv, env)
         else:
@@ -226,6 +362,8 @@ class Mini:
             self.run(fn.body, env)
         except _Return as r:
             return r.value
+        except _PyRaise as ex:
+            return ("raise", ex.name)
         return None
 
     def value_at(self, fn, args: dict, stop: Callable[[ast.stmt], Optional[ast.expr]]):
@@ -237,4 +375,6 @@ class Mini:
             return ("value", s.value)
         except _Return as r:
             return ("returned", r.value)
+        except _PyRaise as ex:
+            return ("raised", ex.name)
         return ("no-stop", None)
